@@ -1,6 +1,7 @@
 import LoraVerif.Props.C18
 import LoraVerif.Props.TieA.C18RadioBuffer
 import LoraVerif.Props.TieA.C18PhyRx126
+import LoraVerif.Props.TieA.C18LoraRx
 /-!
 # C18 — the module `./check C18` builds: the property theorems (`Props/C18.lean`) together with the
 tie-A equalities between the hand model they are proved about (`Model/PhyRx.lean`) and the methods
